@@ -307,6 +307,26 @@ def gen_doc(r, prof, opts=None):
                 subs = dict(subs)
                 subs[lead] = subs.get(lead, []) + [r.pick(alloc + noload)]
                 seg["sections_subgroups"] = subs
+        if prof.wellformed:
+            # keep the tables of one segment well-formed whatever mix of levels set them: lists disjoint,
+            # sub-group sections neither listed nor shared
+            if set(alloc) & set(noload):
+                noload = [x for x in noload if x not in alloc]
+                seg["noload_sections"] = noload
+            taken = set(alloc) | set(noload)
+            fixed, changed = {}, False
+            for k, vals in subs.items():
+                nv = []
+                for x in vals:
+                    if x in taken:
+                        changed = True
+                    else:
+                        nv.append(x)
+                        taken.add(x)
+                fixed[k] = nv
+            if changed:
+                subs = fixed
+                seg["sections_subgroups"] = subs
         listed = list(alloc) + list(noload)
         # sub-group sections reachable from the lists
         subsecs = []
